@@ -111,6 +111,75 @@ func avifBoxes(tiff *gen.Doc, major string) []*gen.Box {
 	return top
 }
 
+// manyPendingTags is a little-endian TIFF whose IFD0 holds n private ASCII tags with out-of-line
+// values, a Make and an Exif pointer.
+func manyPendingTags(n int) *gen.Doc {
+	le := binary.LittleEndian
+	d := &gen.Doc{}
+	d.Str("II*\x00")
+	d.U32(le, 8, "", "")
+	d.U16(le, uint16(n+1), "ifd0.entry-count", "count16")
+	valOff := 8 + 2 + (n+1)*12 + 4
+	d.U16(le, 0x010f, "", "")
+	d.U16(le, 2, "", "")
+	d.U32(le, 8, "", "")
+	d.U32(le, uint32(valOff), "", "")
+	for i := 0; i < n; i++ {
+		d.U16(le, uint16(0xC100+i), "", "")
+		d.U16(le, 2, "", "")
+		d.U32(le, 8, "", "")
+		d.U32(le, uint32(valOff+8*(i+1)), "", "")
+	}
+	d.U32(le, 0, "", "")
+	d.Str("VerifCm\x00")
+	for i := 0; i < n; i++ {
+		d.Str("abcdefg\x00")
+	}
+	d.B = append(d.B, make([]byte, 64)...)
+	return d
+}
+
+// degenerateRecords are TIFF blocks holding a single supported field whose value is cut down to a
+// shape its parser does not expect (count 0, a string or date of 1..3 characters, a rational without
+// its second half): the value then sits in the 4-byte slot although the parser was written for an
+// out-of-line value.  The tag buffer is empty while such a field is parsed, so any use of a pending-tag
+// slot reads what an earlier decode left there.
+var degenerateCache []seed
+
+func degenerateRecords() []seed {
+	if degenerateCache != nil {
+		return degenerateCache
+	}
+	var out []seed
+	for _, bo := range []binary.ByteOrder{binary.LittleEndian, binary.BigEndian} {
+		for fi, f := range gen.Fields {
+			base := f.Menu[0]
+			shapes := []gen.Val{}
+			switch {
+			case base.Type == gen.TASCII:
+				for _, n := range []int{0, 1, 3} {
+					if n <= len(base.Str) {
+						shapes = append(shapes, gen.Val{Type: gen.TASCII, Str: base.Str[:n]}, gen.Val{Type: gen.TASCII, Str: base.Str[:n], NoNUL: true})
+					}
+				}
+			case len(base.Rats) > 0:
+				shapes = append(shapes, gen.Val{Type: base.Type}, gen.Val{Type: gen.TShort, Ints: []uint32{base.Rats[0][0] & 0xffff, base.Rats[0][1] & 0xffff}}, gen.Val{Type: gen.TLong, Ints: []uint32{base.Rats[0][0]}})
+			default:
+				shapes = append(shapes, gen.Val{Type: base.Type}, gen.Val{Type: gen.TByte, Ints: []uint32{1, 2, 3, 4}})
+			}
+			for si, v := range shapes {
+				rec := &gen.Rec{Entries: []gen.Entry{{Dir: f.Dir, Tag: f.Tag, Name: f.Name, V: v}}}
+				lay := gen.CanonicalLayout()
+				lay.Trailing = 64
+				d := gen.EncodeTIFF(rec, lay, bo, gen.AllDirs)
+				out = append(out, seed{name: fmt.Sprintf("degenerate-%s-%d-%d-%s", f.Name, fi, si, map[bool]string{true: "II", false: "MM"}[bo == binary.LittleEndian]), kind: "tiff", doc: &gen.Doc{B: d.B}, gen: true})
+			}
+		}
+	}
+	degenerateCache = out
+	return out
+}
+
 var seedCache []seed
 
 func seeds() []seed {
@@ -147,6 +216,9 @@ func seeds() []seed {
 		mn := []uint32{'N', 'i', 'k', 'o', 'n', 0, 2, 0x10, 0, 0, 'I', 'I', '*', 0, 8, 0, 0, 0, 1, 0, 2, 0, 3, 0, 1, 0, 0, 0, 5, 0, 0, 0, 0, 0, 0, 0}
 		r3.Entries = append(r3.Entries, gen.Entry{Dir: gen.DirExif, Tag: 0x927c, Name: "MakerNote", V: gen.Val{Type: gen.TUndefined, Ints: mn}})
 		add("tiff-nikon-makernote-II", "tiff", gen.EncodeTIFF(r3, can, II, gen.AllDirs))
+	}
+	for _, n := range []int{83, 84, 100, 128} { // pending out-of-line tags at and beyond the 84-slot tag buffer
+		add(fmt.Sprintf("tiff-%d-pending-tags", n), "tiff", manyPendingTags(n))
 	}
 	xp := richXMP()
 	{
@@ -212,6 +284,12 @@ func bigSeeds() []seed {
 		p2 := gen.CR3FromRecord(rich, gen.CanonicalLayout(), MM)
 		p2.Preview = append([]byte("\xff\xd8"), pattern(66000, 'q')...)
 		add("cr3-big-preview-MM-64bit", "cr3", gen.EncodeBoxes(gen.CR3(p2, 4)))
+		for _, n := range []int{10000, 13500, 20000} { // the preview box is the last thing in the file
+			p3 := gen.CR3FromRecord(gen.MinimalRecord(), gen.CanonicalLayout(), II)
+			p3.Preview = append([]byte("\xff\xd8"), pattern(n-2, 'r')...)
+			top := gen.CR3(p3, 0)
+			add(fmt.Sprintf("cr3-preview-%d-last-box", n), "cr3", gen.EncodeBoxes(top[:len(top)-1]))
+		}
 	}
 	{ // TIFF with long strings and a large maker note
 		r := richRecord()
